@@ -102,33 +102,56 @@ def Conj.lits : Conj → List Lit
   | .cmp _ _ l => [l]
   | .between _ lo hi => [lo, hi]
 
-/-- a literal the code can compare in the column's Go type without altering its value: an integer
-    literal inside the column's range for integer columns; any non-NaN literal for float columns
-    (compared in the column's own precision); nothing for the column types the post-filter skips -/
+/-- a literal the code compares with the column value exactly: an integer literal for integer
+    columns (of at most 7 bytes for the widened types: a uint64 above 2^63-1 wraps in `int64(v)`);
+    any non-NaN literal for float columns (compared in the column's own precision) -/
 def Fits (ty : ColTy) (l : Lit) : Prop :=
   match ty with
-  | .i32 => ∃ x, l = .int x ∧ -2147483648 ≤ x ∧ x < 2147483648
+  | .i32 => ∃ x, l = .int x
   | .i64 => ∃ x, l = .int x
   | .f32 => Float.isNaN Float.b32 (Float.convert Float.b64 Float.b32 l.asF64) = false
   | .f64 => Float.isNaN Float.b64 l.asF64 = false
-  | .other _ _ => False
+  | .other s _ => (∃ x, l = .int x) ∧ s ≤ 7
 
-theorem wrap32_id (x : Int) (h1 : -2147483648 ≤ x) (h2 : x < 2147483648) : wrap32 x = x := by
-  unfold wrap32 wrapN
-  have e32 : ((2 ^ 32 : Nat) : Int) = 4294967296 := by decide
-  have e31 : ((2 ^ (32 - 1) : Nat) : Int) = 2147483648 := by decide
-  rw [e32, e31]
+theorem wrap64_id (x : Int) (h1 : -9223372036854775808 ≤ x) (h2 : x < 9223372036854775808) : wrap64 x = x := by
+  unfold wrap64 wrapN
+  have e64 : ((2 ^ 64 : Nat) : Int) = 18446744073709551616 := by decide
+  have e63 : ((2 ^ (64 - 1) : Nat) : Int) = 9223372036854775808 := by decide
+  rw [e64, e63]
   dsimp only
   split <;> omega
+
+theorem pow256_le (n : Nat) (h : n ≤ 7) : 256 ^ n ≤ 72057594037927936 := by
+  have := Nat.pow_le_pow_right (show 0 < 256 by decide) h
+  have e : 256 ^ 7 = 72057594037927936 := by decide
+  omega
+
+theorem wrap64_leDecode (b : Bytes) (h : b.length ≤ 7) : wrap64 (leDecode b : Int) = (leDecode b : Int) := by
+  have h1 := leDecode_lt b
+  have h2 := pow256_le b.length h
+  apply wrap64_id <;> omega
+
+theorem wrap64_leDecodeInt (b : Bytes) (h : b.length ≤ 7) : wrap64 (leDecodeInt b) = leDecodeInt b := by
+  have h1 := leDecode_lt b
+  have h2 := pow256_le b.length h
+  apply wrap64_id
+  · unfold leDecodeInt; dsimp only; split <;> omega
+  · unfold leDecodeInt; dsimp only; split <;> omega
 
 theorem keepVal_i64 (op : CmpOp) (v : Int) (b : Bytes) :
     keepVal .i64 op (.int v) b = keepInt op (leDecodeInt b) v := by
   cases op <;> simp [keepVal, keepInt, Lit.asI64, bne] <;> (rw [Bool.eq_iff_iff]; simp) <;>
     exact decide_eq_true_iff
 
-theorem keepVal_i32 (op : CmpOp) (v : Int) (b : Bytes) (h : wrap32 v = v) :
+theorem keepVal_i32 (op : CmpOp) (v : Int) (b : Bytes) :
     keepVal .i32 op (.int v) b = keepInt op (leDecodeInt b) v := by
-  cases op <;> simp [keepVal, keepInt, Lit.asI64, bne, h] <;> (rw [Bool.eq_iff_iff]; simp) <;>
+  cases op <;> simp [keepVal, keepInt, Lit.asI64, bne] <;> (rw [Bool.eq_iff_iff]; simp) <;>
+    exact decide_eq_true_iff
+
+theorem keepVal_other (op : CmpOp) (s : Nat) (sg : Bool) (v : Int) (b : Bytes) (w : Int)
+    (hw : wrap64 (if sg = true then leDecodeInt b else (leDecode b : Int)) = w) :
+    keepVal (.other s sg) op (.int v) b = keepInt op w v := by
+  cases op <;> simp [keepVal, keepInt, Lit.asI64, bne, hw] <;> (rw [Bool.eq_iff_iff]; simp) <;>
     exact decide_eq_true_iff
 
 theorem keepVal_f64 (op : CmpOp) (l : Lit) (b : Bytes)
@@ -143,12 +166,12 @@ theorem keepVal_f32 (op : CmpOp) (l : Lit) (b : Bytes)
   cases op <;> simp [keepVal, fcmp, feq, fle, Float.lt, hv, hf] <;> (rw [Bool.eq_iff_iff]; simp)
 
 theorem keepVal_sat (ty : ColTy) (op : CmpOp) (l : Lit) (b : Bytes) (x : Bool)
-    (hf : Fits ty l) (hs : satVal ty op l b = some x) : keepVal ty op l b = x := by
+    (hf : Fits ty l) (hb : b.length ≤ ty.size) (hs : satVal ty op l b = some x) : keepVal ty op l b = x := by
   cases ty with
   | i32 =>
-    obtain ⟨v, rfl, h1, h2⟩ := hf
+    obtain ⟨v, rfl⟩ := hf
     simp only [satVal, satIntLit, Option.some.injEq] at hs
-    rw [keepVal_i32 op v b (wrap32_id v h1 h2), hs]
+    rw [keepVal_i32 op v b, hs]
   | i64 =>
     obtain ⟨v, rfl⟩ := hf
     simp only [satVal, satIntLit, Option.some.injEq] at hs
@@ -169,40 +192,78 @@ theorem keepVal_sat (ty : ColTy) (op : CmpOp) (l : Lit) (b : Bytes) (x : Bool)
     · rename_i hv
       simp only [Option.some.injEq] at hs
       rw [keepVal_f64 op l b (by simpa using hv) hf, hs]
-  | other s sg => exact absurd hf (by simp [Fits])
+  | other s sg =>
+    obtain ⟨⟨v, rfl⟩, hs7⟩ := hf
+    simp only [ColTy.size] at hb
+    have hlen : b.length ≤ 7 := by omega
+    simp only [satVal, satIntLit, Option.some.injEq] at hs
+    have hw : wrap64 (if sg = true then leDecodeInt b else (leDecode b : Int)) =
+        (if sg = true then leDecodeInt b else (leDecode b : Int)) := by
+      cases sg
+      · simpa using wrap64_leDecode b hlen
+      · simpa using wrap64_leDecodeInt b hlen
+    rw [keepVal_other op s sg v b _ hw, hs]
 
-theorem keepSP_cmp (ty : ColTy) (op : CmpOp) (l : Lit) (b : Bytes) :
-    keepSP ty (({} : SP).addComparison op l) b = keepVal ty op l b := by
+theorem colBytes_length (cols : List ColDef) (name : String) (p b : Bytes) (d : ColDef)
+    (hb : colBytes cols name p = some b) (hf : cols.find? (fun d => d.name == name) = some d) :
+    b.length ≤ d.ty.size := by
+  induction cols generalizing p with
+  | nil => simp [colBytes] at hb
+  | cons c rest ih =>
+    simp only [colBytes, List.find?_cons] at hb hf
+    by_cases h : (c.name == name) = true
+    · simp only [h, if_true, Option.some.injEq] at hb hf
+      subst hb; subst hf
+      simp [List.length_take]; omega
+    · have h' : (c.name == name) = false := by simpa using h
+      simp only [h', Bool.false_eq_true, if_false] at hb hf
+      exact ih _ hb hf
+
+theorem keepSP_cmp (e : Bool) (ty : ColTy) (op : CmpOp) (l : Lit) (b : Bytes) :
+    keepSP ty (({ epoch := e } : SP).addComparison op l) b = keepVal ty op l b := by
   cases op <;> simp [keepSP, SP.addComparison, SP.setMin, SP.setMax]
 
-theorem keepSP_between (ty : ColTy) (lo hi : Lit) (b : Bytes) :
-    keepSP ty ((({} : SP).addComparison .gt lo).addComparison .lt hi) b =
+theorem keepSP_between (e : Bool) (ty : ColTy) (lo hi : Lit) (b : Bytes) :
+    keepSP ty ((({ epoch := e } : SP).addComparison .gt lo).addComparison .lt hi) b =
       (keepVal ty .gt lo b && keepVal ty .lt hi b) := by
   simp [keepSP, SP.addComparison, SP.setMin, SP.setMax]
 
-theorem keepEpoch_cmp (op : CmpOp) (l : Lit) (sec : Int) :
-    keepEpoch (({} : SP).addComparison op l) sec = keepInt op (convUnit sec) (convUnit l.asI64) := by
+theorem keepEpoch_cmp (e : Bool) (op : CmpOp) (l : Lit) (sec : Int) :
+    keepEpoch (({ epoch := e } : SP).addComparison op l) sec = keepInt op (convUnit sec) (convUnit l.asI64) := by
   cases op <;> simp [keepEpoch, optKeep, SP.addComparison, SP.setMin, SP.setMax]
 
-theorem keepEpoch_between (lo hi : Lit) (sec : Int) :
-    keepEpoch ((({} : SP).addComparison .gt lo).addComparison .lt hi) sec =
+theorem keepEpoch_between (e : Bool) (lo hi : Lit) (sec : Int) :
+    keepEpoch ((({ epoch := e } : SP).addComparison .gt lo).addComparison .lt hi) sec =
       (keepInt .gt (convUnit sec) (convUnit lo.asI64) && keepInt .lt (convUnit sec) (convUnit hi.asI64)) := by
   simp [keepEpoch, optKeep, SP.addComparison, SP.setMin, SP.setMax]
 
-/-- nanosecond-form literal: the spec's reading and the code's reading agree -/
-theorem epochLitNs_ns (l : Lit) (e : Int) (h : epochLitNs l = some e) (hns : l.asI64 > threshold) :
+/-- an Epoch literal denotes an instant representable in int64 nanoseconds: already nanoseconds,
+    or epoch seconds whose product with 10⁹ does not overflow (before the year 2262) -/
+def LitRange (v : Int) : Prop :=
+  v > threshold ∨ (-9223372036854775808 ≤ v * 1000000000 ∧ v * 1000000000 < 9223372036854775808)
+
+/-- for such a literal the spec's reading and the code's `convertUnitToNanosec` agree -/
+theorem epochLitNs_conv (l : Lit) (e : Int) (h : epochLitNs l = some e) (hr : LitRange l.asI64) :
     convUnit l.asI64 = e := by
   cases l with
   | int v =>
-    simp only [Lit.asI64] at hns
-    simp only [epochLitNs, hns, if_true, Option.some.injEq] at h
-    subst h
-    exact convUnit_ns _ hns
+    simp only [Lit.asI64] at hr
+    simp only [epochLitNs, Option.some.injEq] at h
+    by_cases hv : v > threshold
+    · simp only [hv, if_true] at h
+      subst h
+      exact convUnit_ns _ hv
+    · simp only [hv, if_false] at h
+      subst h
+      rcases hr with h1 | ⟨h1, h2⟩
+      · exact absurd h1 hv
+      · simp only [Lit.asI64, convUnit, hv, if_false]
+        exact wrap64_id _ h1 h2
   | flt b => simp [epochLitNs] at h
 
 /-- per-conjunct side conditions of the partial theorem -/
 structure ConjOK (cols : List ColDef) (c : Conj) (r : Row) : Prop where
-  epochNs : c.col = "Epoch" → (∀ l ∈ c.lits, l.asI64 > threshold) ∧ NsRange r.sec
+  epochNs : c.col = "Epoch" → (∀ l ∈ c.lits, LitRange l.asI64) ∧ NsRange r.sec
   fits : c.col ≠ "Epoch" → ∀ d ∈ cols, d.name = c.col → ∀ l ∈ c.lits, Fits d.ty l
 
 theorem keepConj_sat (cols : List ColDef) (c : Conj) (r : Row) (x : Bool)
@@ -217,7 +278,7 @@ theorem keepConj_sat (cols : List ColDef) (c : Conj) (r : Row) (x : Bool)
       simp only [Conj.col, beq_self_eq_true, if_true, Conj.pending, keepEpoch_cmp]
       simp only [satConj, beq_self_eq_true, if_true, Option.map_eq_some_iff] at hs
       obtain ⟨e, he, hx⟩ := hs
-      rw [convUnit_sec _ hr, epochLitNs_ns l e he (hns l (by simp [Conj.lits])), hx]
+      rw [convUnit_sec _ hr, epochLitNs_conv l e he (hns l (by simp [Conj.lits])), hx]
     | between col lo hi =>
       simp only [Conj.col] at hE
       subst hE
@@ -230,8 +291,8 @@ theorem keepConj_sat (cols : List ColDef) (c : Conj) (r : Row) (x : Bool)
         | none => simp [h1, h2] at hs
         | some e2 =>
           simp only [h1, h2, Option.map_some, Option.bind_some, Option.some.injEq] at hs
-          rw [convUnit_sec _ hr, epochLitNs_ns lo e1 h1 (hns lo (by simp [Conj.lits])),
-            epochLitNs_ns hi e2 h2 (hns hi (by simp [Conj.lits])), hs]
+          rw [convUnit_sec _ hr, epochLitNs_conv lo e1 h1 (hns lo (by simp [Conj.lits])),
+            epochLitNs_conv hi e2 h2 (hns hi (by simp [Conj.lits])), hs]
   · have hEb : (c.col == "Epoch") = false := by simpa using hE
     have hfits := ok.fits hE
     cases c with
@@ -248,7 +309,8 @@ theorem keepConj_sat (cols : List ColDef) (c : Conj) (r : Row) (x : Bool)
         | some b =>
           simp only [hf, hb] at hs ⊢
           rw [keepSP_cmp]
-          exact keepVal_sat d.ty op l b x (hfits d hdm hdn l (by simp [Conj.lits])) hs
+          exact keepVal_sat d.ty op l b x (hfits d hdm hdn l (by simp [Conj.lits]))
+            (colBytes_length cols col r.payload b d hb hf) hs
     | between col lo hi =>
       simp only [Conj.col] at hEb hfits ⊢
       simp only [hEb, Conj.pending]
@@ -270,8 +332,9 @@ theorem keepConj_sat (cols : List ColDef) (c : Conj) (r : Row) (x : Bool)
             | none => simp [h1, h2] at hs
             | some y2 =>
               simp only [h1, h2, Option.bind_some, Option.some.injEq] at hs
-              rw [keepVal_sat d.ty .gt lo b y1 (hfits d hdm hdn lo (by simp [Conj.lits])) h1,
-                keepVal_sat d.ty .lt hi b y2 (hfits d hdm hdn hi (by simp [Conj.lits])) h2, hs]
+              have hlen := colBytes_length cols col r.payload b d hb hf
+              rw [keepVal_sat d.ty .gt lo b y1 (hfits d hdm hdn lo (by simp [Conj.lits])) hlen h1,
+                keepVal_sat d.ty .lt hi b y2 (hfits d hdm hdn hi (by simp [Conj.lits])) hlen h2, hs]
 
 theorem lits_of_pending (c : Conj) (l : Lit) (h : l ∈ c.lits) :
     c.pending.equal = some l ∨ c.pending.min = some l ∨ c.pending.max = some l := by
